@@ -49,3 +49,4 @@ chain "negated negation as|EBNF printing panics on anonymous struct" C19
 chain "negated negation as|EBNF printing panics on anonymous struct|modifier applied to a modified group" C14
 chain "fold partners of a different byte length|lexer generator mistakes an escaped backslash" C05
 chain "fold partners of a different byte length|lexer generator mistakes an escaped backslash|against the whole input|loops forever when a repetition body|empty-match and no-match operators are inverted|rejects the last character of the input|never matches multi-byte literals" C05
+run "state without rules is lost" C16
